@@ -254,13 +254,37 @@ def rule_groupkey(ctx, py):
     from .. import pysym
     f = py.fn("value_processing.process_unitvar_input")
     n = 0
+    defs = pysym.local_defs(f)
+
+    def chain(e, depth=0):
+        """(split call or None, stripped?, filters) of an iterable given through locals and comprehensions"""
+        if depth > 6:
+            return None, False, []
+        if isinstance(e, ast.Name) and isinstance(defs.get(e.id), ast.AST):
+            return chain(defs[e.id], depth + 1)
+        if isinstance(e, (ast.ListComp, ast.GeneratorExp)) and len(e.generators) == 1 and isinstance(e.generators[0].target, ast.Name):
+            g = e.generators[0]
+            base, st_, fl = chain(g.iter, depth + 1)
+            v_ = g.target.id
+            el = e.elt
+            if isinstance(el, ast.Call) and isinstance(el.func, ast.Attribute) and el.func.attr == "strip" and not el.args and \
+                    isinstance(el.func.value, ast.Name) and el.func.value.id == v_:
+                st_ = True
+            elif not (isinstance(el, ast.Name) and el.id == v_):
+                return None, False, []
+            return base, st_, fl + [pyfe.src(c_) for c_ in g.ifs]
+        if isinstance(e, ast.Call) and isinstance(e.func, ast.Name) and e.func.id in ("list", "tuple") and len(e.args) == 1:
+            return chain(e.args[0], depth + 1)
+        if isinstance(e, ast.Call) and isinstance(e.func, ast.Attribute) and e.func.attr == "split" and e.args and \
+                isinstance(e.args[0], ast.Constant) and e.args[0].value == ",":
+            return e, False, []
+        return None, False, []
     for lp in [x for x in ast.walk(f) if isinstance(x, ast.For) and isinstance(x.target, ast.Name)]:
-        it = pysym.inline(lp.iter, f)
-        t = pyfe.src(it).replace(" ", "").replace('"', "'")
-        if ".split(','" not in t:
+        base, pre_stripped, filters = chain(lp.iter)
+        if base is None:
             continue
+        t = pyfe.src(base).replace(" ", "")
         var = lp.target.id
-        pre_stripped = isinstance(it, ast.ListComp) and pyfe.src(it.elt).replace(" ", "").endswith(".strip()")
         for st in ast.walk(lp):
             if isinstance(st, ast.Assign) and isinstance(st.targets[0], ast.Subscript) and var in pyfe.src(st.targets[0].slice):
                 key = pysym.isrc(st.targets[0].slice, f, stop={var}).replace(" ", "")
@@ -269,7 +293,11 @@ def rule_groupkey(ctx, py):
                           "each label of a grouped key stripped on its own", "the labels of a grouped key are used as `%s` (group "
                           "split as `%s`): blanks after the commas stay in the 2nd and later labels, which then match no "
                           "environment" % (key, t[:50]))
-    ctx.floor(R, 2)
+                ctx.check(not filters, R, st, f._qual, "every piece of the group becomes a key", "no piece is filtered out",
+                          "pieces of a grouped key are dropped under `%s`: a label that the filter rejects (the empty label is the "
+                          "name of the default unnamed environment) loses its value, those cells silently fall back to "
+                          "'default'" % (filters[0] if filters else ""))
+    ctx.floor(R, 4)
 
 
 def rule_regen(ctx, py):
